@@ -3,9 +3,10 @@
 ID=$1; shift
 CHECKS=${@:-$ID}
 S=/tmp/seed/$ID; O=/tmp/seed/$ID.out
+CLEAN=${SEED_CLEAN:-/tmp/seed/clean2}
 echo "== diffstat"; git -C $S diff --stat | tail -3
 echo "== baseline with change"; /tmp/seed/baseline.sh $S
-echo "== demo on clean tree"; bash $O/run_demo.sh /tmp/seed/clean > /tmp/seed/$ID.demo_clean.txt 2>&1; echo "exit=$? $(tail -1 /tmp/seed/$ID.demo_clean.txt | cut -c1-200)"
+echo "== demo on clean tree"; bash $O/run_demo.sh $CLEAN > /tmp/seed/$ID.demo_clean.txt 2>&1; echo "exit=$? $(tail -1 /tmp/seed/$ID.demo_clean.txt | cut -c1-200)"
 echo "== demo on changed tree"; bash $O/run_demo.sh $S > /tmp/seed/$ID.demo_changed.txt 2>&1; echo "exit=$? $(tail -1 /tmp/seed/$ID.demo_changed.txt | cut -c1-300)"
 for c in $CHECKS; do
   echo "== our check $c (quick) against the changed tree"
